@@ -21,7 +21,15 @@ async fn one(log: &Log, r: &mut Rng, c: &Value, variant: u64) {
     let mut rx = rg.new_streams.unwrap();
     let s2 = sess.clone();
     tokio::spawn(async move { while let Some(st) = rx.recv().await { let s3 = s2.clone(); tokio::spawn(async move { let _ = TcpProxyHandler::new().handle_stream(st, s3).await; }); } });
-    let target = net::start_target("127.0.0.1:0", TargetMode::Sink).await;
+    // a target that greets and closes at once
+    let tl = tokio::net::TcpListener::bind("127.0.0.1:0").await.unwrap();
+    let taddr = tl.local_addr().unwrap();
+    let accepted = std::sync::Arc::new(std::sync::atomic::AtomicU64::new(0));
+    let acc2 = accepted.clone();
+    tokio::spawn(async move { use tokio::io::AsyncWriteExt; while let Ok((mut s, _)) = tl.accept().await { acc2.fetch_add(1, std::sync::atomic::Ordering::SeqCst); let _ = s.write_all(b"hello from target").await; let _ = s.shutdown().await; tokio::time::sleep(Duration::from_millis(200)).await; } });
+    struct T { addr: std::net::SocketAddr, accepted: std::sync::Arc<std::sync::atomic::AtomicU64> }
+    let target = T { addr: taddr, accepted };
+    let _ = TargetMode::Sink;
     let mut lines: Vec<String> = Vec::new();
     match vclass { "absent" => {} "one" => lines.push((*r.pick(&["v=1", "v=0", "v= 1 "])).into()), "two" => lines.push((*r.pick(&["v=2", "v = 2", "v=2 "])).into()),
         "high" => lines.push(format!("v={}", *r.pick(&[3u32, 9, 100, 255]))), "overflow" => lines.push(format!("v={}", *r.pick(&["256", "1000", "4294967298", "99999999999999999999"]))),
@@ -39,7 +47,7 @@ async fn one(log: &Log, r: &mut Rng, c: &Value, variant: u64) {
     rg.inp.push(&frame_bytes(2, 1, &dest));
     // the handler dials the target; then (version >= 2) answers
     net::wait_until(|| target.accepted.load(std::sync::atomic::Ordering::SeqCst) > 0, 2000).await;
-    tokio::time::sleep(Duration::from_millis(30)).await;
+    tokio::time::sleep(Duration::from_millis(120)).await;
     let rec = rg.out.take_record();
     let (frames, _) = parse_frames(&rec);
     let pos = |cmd: u8| frames.iter().position(|f| f.cmd == cmd);
@@ -48,7 +56,10 @@ async fn one(log: &Log, r: &mut Rng, c: &Value, variant: u64) {
     let synack = frames.iter().any(|f| f.cmd == 7 && f.sid == 1 && f.len == 0);
     let heartecho = frames.iter().any(|f| f.cmd == 9 && f.sid == hb_sid);
     let update_first = match (pos(6), pos(10)) { (Some(a), Some(b)) => a < b, _ => true };
-    let o = json!({"update": update, "serversettings": ss, "synack": synack, "heartecho": heartecho, "update_first": update_first});
+    let tdata: Vec<u8> = frames.iter().filter(|f| f.cmd == 2 && f.sid == 1).flat_map(|f| rec[f.off + 7..f.off + 7 + f.len].to_vec()).collect();
+    let fin = frames.iter().any(|f| f.cmd == 3 && f.sid == 1);
+    let o = json!({"update": update, "serversettings": ss, "synack": synack, "heartecho": heartecho, "update_first": update_first,
+                   "tdata": tdata == b"hello from target", "fin": fin});
     log.block(json!({"kind": "nego", "c": c, "settings": settings}), vec![json!({"ev": "nego", "c": c, "o": o})]);
     let _ = tokio::time::timeout(Duration::from_secs(2), sess.close()).await;
 }
